@@ -67,7 +67,21 @@ func c12Failing(r *rt.Rand, text bool) *gen.Node {
 		n = gen.Call("l2_distance", gen.Call("list", gen.Int(1), gen.Int(2)), gen.Call("list", gen.Int(1))) // unequal lengths
 	}
 	if text {
-		return gen.Bin("+", gen.Str("v"), gen.Call("str", n))
+		// the failing operand at every place of a chain of concatenations
+		f := gen.Call("str", n)
+		switch r.Intn(6) {
+		case 0:
+			return gen.Bin("+", gen.Bin("+", gen.Str("v"), f), gen.Str("z"))
+		case 1:
+			return gen.Bin("+", gen.Bin("+", f, gen.Str("y")), gen.Str("z"))
+		case 2:
+			return gen.Bin("+", gen.Bin("+", gen.Str("x"), gen.Str("y")), f)
+		case 3:
+			return gen.Bin("+", gen.Str("x"), gen.Bin("+", gen.Str("y"), f))
+		case 4:
+			return gen.Bin("+", gen.Bin("+", gen.Bin("+", gen.Str("w"), gen.Call("upper", gen.Bin("+", gen.Str("x"), f))), gen.Str("y")), gen.Str("z"))
+		}
+		return gen.Bin("+", gen.Str("v"), f)
 	}
 	return n
 }
